@@ -237,6 +237,11 @@ def named_shapes(p):
         "complete": g([(i, j) for i in range(p) for j in range(i + 1, p)]),
         "chain-plus-long-edge": g([(i, i + 1) for i in range(p - 1)] + [(0, p - 1), (1, p - 2)]),
         "binary-tree": g([((i - 1) // 2, i) for i in range(1, p)]),
+        # long-range propagation: a v-structure whose compelledness travels down a long tail
+        "collider-with-tail": g([(0, 2), (1, 2)] + [(i, i + 1) for i in range(2, p - 1)]),
+        "collider-with-two-tails": g([(0, 2), (1, 2)] + [(i, i + 2) for i in range(2, p - 2)]),
+        "tail-into-collider": g([(i, i + 1) for i in range(0, p - 2)] + [(p - 1, p - 2)]),
+        "collider-tail-shortcut": g([(0, 2), (1, 2)] + [(i, i + 1) for i in range(2, p - 1)] + [(2, p - 1)]),
         "inverted-tree": g([(i, (i - 1) // 2) for i in range(1, p)]),
     }
     return shapes
